@@ -216,6 +216,7 @@ theorem seqRel_step (H : IdFn) (g : Graph) (u : Upd) : SeqRel g (g.step H u) := 
     simp only [Graph.step]
     refine (SeqRel.refl' (g' := { g with polKeys := C02.mset nid key g.polKeys }) rfl rfl).trans ?_
     exact (seqRel_arcPolicy H _ nid v).trans (seqRel_resStep _ _)
+  | passthru c key v => exact seqRel_emit g _
   | other => exact SeqRel.rfl' g
 
 theorem seqRel_inSync (g : Graph) : SeqRel g g.inSync := SeqRel.refl' rfl rfl
